@@ -90,15 +90,18 @@ class FHist:
         op = self.op
         out = []
 
-        def attempt(label, thunk, want):
+        def attempt(label, thunk, want, io=None):
             try:
-                out.append((label, "ok", thunk(), want))
+                out.append((label, "ok", thunk(), want, io))
             except Exception as e:  # noqa: BLE001
-                out.append((label, "err", f"{type(e).__name__}: {str(e)[:260]}", want))
+                out.append((label, "err", f"{type(e).__name__}: {str(e)[:260]}", want, io))
+
+        def attempt_build(label, outputs, want):
+            attempt(label, lambda: spox.build({"x": self.x}, outputs), want, ({"x": self.x}, outputs))
 
         f0 = lambda v: self.np_f(0, v)  # noqa: E731
         if what in ("build", "build_again"):
-            attempt(what, lambda: spox.build({"x": self.x}, {"y": self.y}), f0)
+            attempt_build(what, {"y": self.y}, f0)
         elif what == "graph_twice":
             if self.graph is None:
                 self.x._rename("x")
@@ -107,7 +110,7 @@ class FHist:
             attempt("graph#2", lambda: self.graph.to_onnx_model(), f0)
             self.x._rename(None)
         elif what == "around_op":
-            attempt(what, lambda: spox.build({"x": self.x}, {"y": op.neg(self.y)}), lambda v: -f0(v))
+            attempt_build(what, {"y": op.neg(self.y)}, lambda v: -f0(v))
         elif what == "around_func":
             inner_i = min(1, self.case["depth"] - 1)
 
@@ -115,21 +118,30 @@ class FHist:
                 (t,) = self.fns[inner_i](a)
                 return [op.abs(t)]
             g = to_function(f"g{len(out)}_{id(self) % 7}", "fh.g")(gbody)
-            attempt(what, lambda: spox.build({"x": self.x}, {"y": list(g(self.y))[0]}),
-                    lambda v: np.abs(self.np_f(inner_i, f0(v))))
+            try:
+                gy = list(g(self.y))[0]
+            except Exception as e:  # noqa: BLE001
+                out.append((what, "err", f"{type(e).__name__}: {str(e)[:260]}", None, None))
+                return out
+            attempt_build(what, {"y": gy}, lambda v: np.abs(self.np_f(inner_i, f0(v))))
         elif what == "subset":
             inner_i = min(1, self.case["depth"] - 1)
             if self.z is None:
                 (self.z,) = self.fns[inner_i](self.x)
-            attempt(what, lambda: spox.build({"x": self.x}, {"y": self.z}), lambda v: self.np_f(inner_i, v))
+            attempt_build(what, {"y": self.z}, lambda v: self.np_f(inner_i, v))
         elif what == "other_call":
-            attempt(what, lambda: spox.build({"x": self.x}, {"y": list(self.fns[0](self.y))[0]}), lambda v: f0(f0(v)))
+            try:
+                yy = list(self.fns[0](self.y))[0]
+            except Exception as e:  # noqa: BLE001
+                out.append((what, "err", f"{type(e).__name__}: {str(e)[:260]}", None, None))
+                return out
+            attempt_build(what, {"y": yy}, lambda v: f0(f0(v)))
         else:
             raise ValueError(what)
         return out
 
 
-def judge_history(case):
+def judge_history(case, collect=True):
     """-> list of {"label","status","fails":[(key, what)], "err"?}"""
     from harness.props import c14 as C14
 
@@ -142,8 +154,14 @@ def judge_history(case):
         except Exception as e:  # noqa: BLE001
             return [{"label": "construct", "status": "err", "err": f"{type(e).__name__}: {str(e)[:200]}", "fails": []}]
         for si, what in enumerate(case["steps"]):
-            for label, st, m, want in h.step(what):
+            for label, st, m, want, io in h.step(what):
                 rec = {"label": f"{si}:{label}", "status": st, "fails": []}
+                if st == "ok" and io is not None and si > 0 and collect:
+                    # tie H over the SAME objects: the structure of this later model, taken apart with the real Builder
+                    try:
+                        rec["fg"], rec["real"], rec["imports"] = C14.extract_fgraph({"drop": False}, io=io)
+                    except Exception as e:  # noqa: BLE001
+                        rec["fg"], rec["real"], rec["imports"] = None, ("unobservable", f"{type(e).__name__}: {e}"), []
                 if st == "err":
                     rec["err"] = m
                     # every program of this family is valid and its functions are deterministic: it must build
